@@ -146,7 +146,7 @@ int main(int argc, char** argv) {
       }
   };
   for (uint64_t N : Ns) add_items(N, true);
-  if (!args.thorough()) for (uint64_t N : {2048, 16384}) { size_t k0 = items.size(); add_items(N, false); for (size_t k = k0; k < items.size(); ++k) items[k].sparse = true; }
+  if (!args.thorough()) for (uint64_t N : {2048, 16384, 65536}) { size_t k0 = items.size(); add_items(N, false); for (size_t k = k0; k < items.size(); ++k) items[k].sparse = true; }
   for (uint64_t N : {4, 16}) { size_t k0 = items.size(); add_items(N, false); for (size_t k = k0; k < items.size(); ++k) items[k].wide = true; }
   if (args.thorough()) {
     for (uint64_t N : NM) add_items(N, true);
@@ -172,7 +172,7 @@ int main(int argc, char** argv) {
   Json extra = Json::obj();
   Json ns = Json::arr();
   for (uint64_t N : Ns) ns.push(N);
-  if (args.thorough()) { for (uint64_t N : NM) ns.push(N); for (uint64_t N : NL) ns.push(N); } else { ns.push(2048); ns.push(16384); }
+  if (args.thorough()) { for (uint64_t N : NM) ns.push(N); for (uint64_t N : NL) ns.push(N); } else { ns.push(2048); ns.push(16384); ns.push(65536); }
   extra.set("ring_dimensions", ns).set("ops", NVECOPS).set("cfgs", (int)cf.size());
   return ctx.finish("exploration",
                     "nested product op x N x module type x cfg x (res_size,a_size,b_size) in {0,1,2,3,5,9}^3 x strides {N,N+1,N+3,2N+5} per small operand x p set; "
